@@ -113,12 +113,14 @@ def gen_layer_case(rng):
             ins.append([10, rng.choice([100, 101, 102, 103, 5])])
         else:
             ins.append([11])
-    return {"k": 0, "role": role, "req": 100, "ins": ins}
+    # the RE-CONFIG request sequence number starts at the (random) initial TSN: now and then right below the 32-bit wrap
+    req = 100 if rng.random() < 0.7 else rng.choice([0xFFFFFFFF, 0xFFFFFFFE, 0xFFFFFFFD, 0xFFFFFFF0, 0, 0x7FFFFFFF])
+    return {"k": 0, "role": role, "req": req, "ins": ins}
 
 
 def gen_program(rng):
     """two-endpoint create/send/close program"""
-    origins = [7, 0xFFFFFFF0, 0x7FFFFFF0]
+    origins = [7, 0xFFFFFFF0, 0x7FFFFFF0, 0xFFFFFFFF, 0xFFFFFFFE]
     ops = []
     late_start = rng.random() < 0.3
     chans = {0: 0, 1: 0}
@@ -169,11 +171,16 @@ class C13(Check):
     rule = ("k=0: 3-40 inputs over create (negotiated or not, explicit ids, all reliability settings, Unicode labels), "
             "send, close, threshold, flush with oracle, reconfig, established/closed, received DCEP/user messages "
             "(valid, truncated, bad UTF-8), reset request/response; k=1: two real endpoints, create/send/close "
-            "programs with faults, also before the handshake; distinct by (case, outputs); non-trivial = some channel "
+            "programs with faults, also before the handshake, and stream ids used by 2-3 channels in a row (DCEP-opened or negotiated, "
+            "senders refilling from a 'bufferedamountlow' handler); distinct by (case, outputs); non-trivial = some channel "
             "reaches open and some channel reaches closing or closed")
 
     def gen_case(self, rng, i):
-        return gen_program(rng) if rng.random() < 0.12 else gen_layer_case(rng)
+        r = rng.random()
+        if r < 0.03:
+            # a stream id used by several channels in a row (DCEP-opened or negotiated), flow-controlled senders
+            return SC.gen_recycle(rng, stale=(rng.random() < 0.4))
+        return gen_program(rng) if r < 0.12 else gen_layer_case(rng)
 
     def model_name(self, case):
         return "Chan" if case["k"] == 0 else None
@@ -480,6 +487,19 @@ def reconfig_lost(obs):
 
 def scenario_oracle(case, obs):
     r = scenario_oracle_raw(case, obs)
+    if r is None and case.get("recycle"):
+        # `frees the id for reuse`: what is delivered on a channel that took over a stream id was sent on that very
+        # channel - nothing accepted by send() on an earlier owner of the id may surface on it
+        from harness.props import c01 as C01mod
+        m = C01mod.scenario_oracle_reliable(obs)
+        if m is not None and m[0] in ("corrupt-message", "duplicate-delivery", "order-violation"):
+            if obs.get("reset_overtook_own_data") or obs.get("reset_hit_reused_id"):
+                # K9 / K10: the peer executed a reset request ahead of DATA of that very stream, or a late reset hit the
+                # next owner of the id
+                return ("reset-request-overtakes-data", "a stream reset request was processed before the DATA it follows "
+                                                        "(last_tsn ignored): " + m[1])
+            if not reconfig_lost(obs):
+                return ("message-on-wrong-channel", "after close() and re-use of the stream id: " + m[1])
     if r is not None and obs.get("reset_overtook_data") and r[0] in (
             "datachannel-params", "datachannel-event-count", "close-incomplete", "not-open-after-heal"):
         return ("reset-request-overtakes-data", "a stream reset request was processed before the DATA it "
@@ -531,7 +551,7 @@ def scenario_oracle_raw(case, obs):
     remote_idx = {ep: set(key for e, kind, key, m in obs["events"] if e == ep and kind == "datachannel") for ep in (0, 1)}
     for ep in (0, 1):
         for i, ch in enumerate(obs["channels"][ep]):
-            if i in remote_idx[ep] or ch["id"] is None:
+            if i in remote_idx[ep] or ch["id"] is None or ch.get("negotiated"):
                 continue
             if ch["id"] % 2 != (1 if ep == 0 else 0):
                 return ("id-parity", f"ep{ep} chose id {ch['id']}")
@@ -555,6 +575,14 @@ def scenario_oracle_raw(case, obs):
                 continue
             events_for_id = [m2 for e, kind, k2, m2 in obs["events"]
                              if e == 1 - ep and kind == "datachannel" and m2[0] == ch["id"]]
+            if ch.get("negotiated"):
+                # negotiated out of band: nothing is announced in band
+                if events_for_id and not any(c2["id"] == ch["id"] and not c2.get("negotiated") for e2 in (0, 1) for c2 in obs["channels"][e2]):
+                    return ("datachannel-event-count", f"negotiated channel id {ch['id']} of ep{ep}: the peer saw a datachannel event")
+                if (ep, i) not in closed_ops and ch["state"] != "open" and not any(
+                        (1 - ep, j) in closed_ops for j, rc in enumerate(obs["channels"][1 - ep]) if rc["id"] == ch["id"]):
+                    return ("not-open-after-heal", f"ep{ep} negotiated channel id {ch['id']} is {ch['state']}")
+                continue
             incarnations = [j for j, c2 in enumerate(obs["channels"][ep])
                             if j not in remote_idx[ep] and c2["id"] == ch["id"]]
             if len(events_for_id) > len(incarnations):
